@@ -234,7 +234,46 @@ func readSpecLines(path string) ([]specLine, error) {
 		}
 		out = append(out, specLine{t, pos})
 	}
-	return out, nil
+	return expandBlocks(out), nil
+}
+
+// expandBlocks implements `block NAME` (an unindented line followed by indented clause lines that belong to
+// no contract) and `use NAME` (an indented line inside a contract, replaced by the block's lines, which keep the
+// position of the `use` line): clause groups several contracts of one file share (call specifications of the
+// type helpers, preserve lists).
+func expandBlocks(lines []specLine) []specLine {
+	blocks := map[string][]specLine{}
+	var out []specLine
+	cur := ""
+	for _, l := range lines {
+		indented := strings.HasPrefix(l.text, " ") || strings.HasPrefix(l.text, "\t")
+		ts := strings.TrimSpace(l.text)
+		if !indented {
+			cur = ""
+			if strings.HasPrefix(ts, "block ") {
+				cur = strings.TrimSpace(strings.TrimPrefix(ts, "block "))
+				blocks[cur] = nil
+				continue
+			}
+			out = append(out, l)
+			continue
+		}
+		if cur != "" {
+			blocks[cur] = append(blocks[cur], l)
+			continue
+		}
+		if strings.HasPrefix(ts, "use ") {
+			name := strings.TrimSpace(strings.TrimPrefix(ts, "use "))
+			if b, ok := blocks[name]; ok {
+				for _, bl := range b {
+					out = append(out, specLine{bl.text, l.pos})
+				}
+				continue
+			}
+		}
+		out = append(out, l)
+	}
+	return out
 }
 
 func stripComment(s string) string {
